@@ -41,7 +41,7 @@ type regOp struct {
 	out      string                // setdeco: Render output
 }
 
-var poolShapes = []string{"alpha", "Mixed Case", "ünï-cödé", "alpha.beta", "UPPER", "z"}
+var poolShapes = []string{"alpha", "Mixed Case", "ünï-cödé", "alpha.beta", "ctl\x00\n\t\xff\ufffdname", "UPPER-and-a-name-that-is-longer-than-sixty-four-bytes-xxxxxxxxxxxxxxxxxxxxxxxxxx"}
 
 // execCounter makes the names of every execution in this process fresh: the
 // registry has no way to forget a name, and an execution must not see what an
@@ -58,7 +58,7 @@ const builtinVariant = 100
 // and a table set to that name refuses to render — but the name is listed.
 const emptyVariant = 101
 
-const overwrittenBuiltin = decoration.D_UTF8_DOUBLE
+const overwrittenBuiltin = decoration.D_UTF8_HEAVY
 
 func NewRegRun(seed uint64, npool int, overwriteBuiltin ...bool) *RegRun {
 	execCounter++
@@ -140,7 +140,7 @@ func (rr *RegRun) registeredNow(name string) bool {
 // output by its cross-piece glyph.
 func variantDeco(v int) decoration.Decoration {
 	if v == builtinVariant {
-		return decoration.UTF8BoxDouble()
+		return decoration.UTF8BoxHeavy()
 	}
 	if v == emptyVariant {
 		return decoration.Decoration{}
@@ -159,7 +159,7 @@ func variantDeco(v int) decoration.Decoration {
 // variantGlyph is the glyph by which decoration v is recognised in output.
 func variantGlyph(v int) string {
 	if v == builtinVariant {
-		return "╔"
+		return "┏"
 	}
 	return string(rune('A' + v%20))
 }
@@ -536,7 +536,7 @@ func caseVariants(s string) []string {
 	return []string{s, up, title, string(alt)}
 }
 
-var trailers = []string{"", ".x", "..", ".a.b", ".utf8-light", ".csv", ". "}
+var trailers = []string{"", ".x", "..", ".a.b", ".utf8-light", ".csv", ". ", ".a\nb", ".\x00"}
 
 func (rr *RegRun) ProbeC19(registered map[string]int, inflight bool, trailerSeed int) *Violation {
 	v := func(sig, format string, args ...interface{}) *Violation {
@@ -700,7 +700,7 @@ func (rr *RegRun) ProbeC19(registered map[string]int, inflight bool, trailerSeed
 		}
 	}
 	// unknown names fail closed
-	for _, u := range append([]string{"texttable." + rr.prefix + "never", "texttable.", "csvx", "x.csv", "texttable.texttable", "texttable.json", "TextTable.csv.x", "texttable.markdown"}, rr.never...) {
+	for _, u := range append([]string{"texttable." + rr.prefix + "never", "texttable.", "csvx", "x.csv", "texttable.texttable", "texttable.json", "TextTable.csv.x", "texttable.markdown", "texttablex", "TextTable2", "texttable-wide", "csv2", "jsonx"}, rr.never...) {
 		t := auto.New(u)
 		fill(t)
 		out, err := t.Render()
